@@ -272,6 +272,15 @@ def _register_hasaccount():
 _register_hasaccount()
 
 
+def _register_renderinv():
+    """C16 (bld-render6): InventoryRenderer.format, the expanded layout; spec and rules I0-I2 in src_renderinv.py"""
+    from . import src_renderinv
+    src_renderinv.register(GROUPS)
+
+
+_register_renderinv()
+
+
 def generate(group):
     """Regenerate coq/Gen/Src<Group>.v from the live source; raises py2mini.Untranslatable (fail closed)."""
     fname, spec, *rest = GROUPS[group]
